@@ -15,12 +15,16 @@ A statement proved for the generic entries holds for every entry (pair of entrie
 
 Trusted numpy facts encoded here (A6 + NaN propagation, DESIGN section 7 / C20 "T"):
   * arithmetic ufuncs and np.clip propagate NaN; x*0 with x=+-oo is NaN; clip(+-oo) is the bound;
+  * np.maximum / np.minimum propagate NaN, np.fmax / np.fmin IGNORE it (NaN entry -> the other operand, a number);
+    np.nan_to_num replaces NaN by `nan` (0.0) and +-inf by posinf / neginf (default: the dtype's extreme finite numbers);
+  * bool(x) of a Python / NumPy number is x != 0 (exact zeros of every kind are falsy); float(None) raises TypeError;
   * in-place ufuncs (`out=a`) with a float result into an integer/bool array raise (UFuncTypeError <: TypeError);
   * np.expm1(x) = exp(x) - 1 and np.log1p(x) = log(1 + x) over the reals (unfolded, no new symbol);
   * np.nanmin/np.nanmax ignore NaN but not +-inf (finite result only without an infinite entry of that sign);
     np.isclose(a, b) is |a-b| <= atol + rtol*|b|;
   * np.min/np.max of an empty array raise ValueError; np.quantile rejects q outside [0,1] with ValueError, an empty
-    array with IndexError, is non-decreasing in q, lies between min and max, Q(0)=min, Q(1)=max;
+    array with IndexError, is non-decreasing in q, lies between min and max, Q(0)=min, Q(1)=max; np.percentile(a, p) is
+    np.quantile(a, p/100); np.nanquantile / np.nanpercentile skip NaN but not +-inf;
   * np.array(a, copy=False) of an ndarray is `a` itself, copy=True a fresh array; np.asarray(a) is a; ravel is a view;
   * np.ma.masked_invalid(a) masks exactly the NaN / +-oo entries and keeps the other data entries;
   * matplotlib.colors.Normalize stores vmin/vmax as given (numeric value preserved by _sanitize_extrema);
@@ -185,6 +189,10 @@ class NumVal(Kind):
 
     def __ge__(self, o):
         return self._cmp(o, lambda x, y: x >= y)
+
+    def _pyvc_truth(self, interp):
+        """bool(x) of a number of any kind (Python 0 / 0.0 / NumPy scalar 0 are all falsy): x != 0; forks the path"""
+        return interp.ctx.branch(self.val != 0)
 
     def item(self):
         """ndarray/np.generic .item(): the exact Python number"""
@@ -605,30 +613,73 @@ def install(reg, dataclasses_=(), normalize_cls=None):
     M[np.abs] = m_abs
     M[np.absolute] = m_abs
 
-    def m_maximum(interp, a, b):
-        if isinstance(a, PArr) or isinstance(b, PArr):
-            raise OutOfSubset("np.maximum of a pointwise array")
-        if isinstance(a, NumVal) or isinstance(b, NumVal):
-            p, q = NumVal.of(a), NumVal.of(b)
-            return NumVal(z3.If(p.val >= q.val, p.val, q.val), NumVal.machine(p, q), FALSE)  # no overflow possible
-        if contains_sym((a, b)):
-            x, y = rterm(a), rterm(b)
-            return Sym(z3.If(x >= y, x, y))
-        return interp.native(np.maximum, a, b)
+    # ---- np.maximum / np.minimum / np.fmax / np.fmin  (array, scalar): EXACT on the (value, NaN flag, +-inf flag) view.
+    # NumPy contract: maximum / minimum PROPAGATE NaN (a NaN operand gives NaN); fmax / fmin IGNORE it (if exactly one operand
+    # is NaN the other one is returned).  The scalar operand is a real number (A1: never NaN / inf).  +-inf orders as usual.
+    def _zmax(x, y):
+        return z3.If(x >= y, x, y)
 
-    def m_minimum(interp, a, b):
-        if isinstance(a, PArr) or isinstance(b, PArr):
-            raise OutOfSubset("np.minimum of a pointwise array")
-        if isinstance(a, NumVal) or isinstance(b, NumVal):
-            p, q = NumVal.of(a), NumVal.of(b)
-            return NumVal(z3.If(p.val <= q.val, p.val, q.val), NumVal.machine(p, q), FALSE)  # no overflow possible
-        if contains_sym((a, b)):
-            x, y = rterm(a), rterm(b)
-            return Sym(z3.If(x <= y, x, y))
-        return interp.native(np.minimum, a, b)
+    def _zmin(x, y):
+        return z3.If(x <= y, x, y)
 
-    M[np.maximum] = m_maximum
-    M[np.minimum] = m_minimum
+    def e_maximum(interp, e, c):
+        return Elem(z3.If(e.inf < 0, c, _zmax(e.val, c)), e.nan, z3.If(e.inf > 0, 1, 0))
+
+    def e_minimum(interp, e, c):
+        return Elem(z3.If(e.inf > 0, c, _zmin(e.val, c)), e.nan, z3.If(e.inf < 0, -1, 0))
+
+    def e_fmax(interp, e, c):
+        # NaN entry -> the scalar (a NUMBER: the NaN is gone)
+        return Elem(z3.If(z3.Or(e.nan, e.inf < 0), c, _zmax(e.val, c)), FALSE, z3.If(z3.And(z3.Not(e.nan), e.inf > 0), 1, 0))
+
+    def e_fmin(interp, e, c):
+        return Elem(z3.If(z3.Or(e.nan, e.inf > 0), c, _zmin(e.val, c)), FALSE, z3.If(z3.And(z3.Not(e.nan), e.inf < 0), -1, 0))
+
+    def _minmax(name, native, ef, pick):
+        arr = _binary(name, native, ef)
+
+        def h(interp, a, b, out=None, **kw):
+            if isinstance(b, PArr) and not isinstance(a, PArr):
+                a, b = b, a  # commutative
+            if isinstance(a, PArr):
+                return arr(interp, a, b, out=out, **kw)
+            if kw or out is not None:
+                raise OutOfSubset(f"np.{name} keywords on scalars")
+            if isinstance(a, NumVal) or isinstance(b, NumVal):
+                p, q = NumVal.of(a), NumVal.of(b)
+                return NumVal(pick(p.val, q.val), NumVal.machine(p, q), FALSE)  # no overflow possible
+            if contains_sym((a, b)):
+                return Sym(pick(rterm(a), rterm(b)))  # (A1: symbolic scalars are real numbers, never NaN: fmax = maximum)
+            return interp.native(native, a, b)
+        return h
+
+    M[np.maximum] = m_maximum = _minmax("maximum", np.maximum, e_maximum, _zmax)
+    M[np.minimum] = m_minimum = _minmax("minimum", np.minimum, e_minimum, _zmin)
+    M[np.fmax] = _minmax("fmax", np.fmax, e_fmax, _zmax)
+    M[np.fmin] = _minmax("fmin", np.fmin, e_fmin, _zmin)
+
+    # ---- np.nan_to_num(x, copy=True, nan=0.0, posinf=None, neginf=None): NaN -> `nan`, +inf -> `posinf` (default: the largest
+    # finite number of the dtype), -inf -> `neginf` (default: the most negative one); every other entry unchanged; copy=False
+    # works in place.  The dtype's largest finite number is a symbolic constant >= 65504 (float16).
+    def m_nan_to_num(interp, x, copy=True, nan=0.0, posinf=None, neginf=None):
+        if not isinstance(x, PArr):
+            if contains_sym(x):
+                return x if isinstance(x, (Sym, NumVal)) else Sym(rterm(x))  # a real number is returned unchanged
+            return interp.native(np.nan_to_num, x, copy=copy, nan=nan, posinf=posinf, neginf=neginf)
+        ctx = interp.ctx
+        big = ctx.ghost.get("float_dtype_max")
+        if big is None:
+            big = ctx.ghost["float_dtype_max"] = z3.Real(ctx.fresh_name("float_dtype_max"))
+            ctx.assume(big >= 65504)
+        n, p, q = rterm(nan), (big if posinf is None else rterm(posinf)), (-big if neginf is None else rterm(neginf))
+        els = [Elem(z3.If(e.nan, n, z3.If(e.inf > 0, p, z3.If(e.inf < 0, q, e.val))), FALSE, ZERO_I) for e in x.elems]
+        cp = interp.truth(copy) if isinstance(copy, Sym) else bool(copy)
+        if cp or x.dt != "f":
+            return PArr(els, x.dt, None, x.name + ".nan_to_num")
+        x.set_elems(els)
+        return x
+
+    M[np.nan_to_num] = m_nan_to_num
 
     # ------------------------------------------------------------------ array construction / views
     old_array = M.get(np.array)
@@ -665,6 +716,8 @@ def install(reg, dataclasses_=(), normalize_cls=None):
         return interp.native(np.isfinite, x)
 
     M[np.isfinite] = m_isfinite
+    # pointwise arrays are real-valued (dt in f / i / b)
+    M[np.iscomplexobj] = lambda interp, x: False if isinstance(x, PArr) else interp.native(np.iscomplexobj, x)
 
     # ------------------------------------------------------------------ reductions over the finite entries
     def _need_filtered(a, what):
@@ -731,6 +784,33 @@ def install(reg, dataclasses_=(), normalize_cls=None):
 
     M[np.quantile] = m_quantile
 
+    # np.percentile(a, p) = np.quantile(a, p / 100) (NumPy documents it so; ValueError for p outside [0, 100]): the SAME
+    # uninterpreted quantile function of the array with the same order facts, no new symbol
+    def m_percentile(interp, a, q, *rest, **kw):
+        if not isinstance(a, PArr):
+            return interp.native(np.percentile, a, q, *rest, **kw)
+        qs = [Sym(rterm(x) / 100) for x in q] if isinstance(q, (tuple, list)) else Sym(rterm(q) / 100)
+        return m_quantile(interp, a, tuple(qs) if isinstance(q, (tuple, list)) else qs, *rest, **kw)
+
+    M[np.percentile] = m_percentile
+
+    # np.nanquantile / np.nanpercentile skip NaN but NOT +-inf: on an array without infinite entries they are the quantiles of
+    # the finite entries; with an infinite entry the result is not a quantile of the finite data (domain obligation, like nanmin)
+    def _nan_q(name, base):
+        def h(interp, a, q, *rest, **kw):
+            if not isinstance(a, PArr):
+                return interp.native(getattr(np, name), a, q, *rest, **kw)
+            if a.data is None:
+                raise OutOfSubset(f"np.{name} of a derived array without ghost summary")
+            g = a.data
+            _domain(interp, f"{name}-result-is-a-quantile-of-the-finite-entries(no-infinite-entry)", z3.And(z3.Not(g.has_pinf), z3.Not(g.has_ninf)))
+            f = PArr([], a.dt, g, a.name + "[~isnan]", filtered=True)
+            return base(interp, f, q, *rest, **kw)
+        return h
+
+    M[np.nanquantile] = _nan_q("nanquantile", m_quantile)
+    M[np.nanpercentile] = _nan_q("nanpercentile", m_percentile)
+
     # nan-aware reductions skip NaN but NOT +-inf; over the reals (A1) their result is a number only if the array has a
     # finite entry and no infinite entry of the relevant sign -> domain obligation (like log of a positive number)
     def _nan_reduction(name, native, pick, bad_inf):
@@ -752,6 +832,9 @@ def install(reg, dataclasses_=(), normalize_cls=None):
     old_float = M.get(float)
 
     def m_float(interp, x=0.0):
+        h = getattr(x, "_pyvc_float", None)  # kind-abstract scalars that know their float() (may raise TypeError for None)
+        if h is not None:
+            return h(interp)
         if isinstance(x, NumVal):
             return Sym(x.val)  # float(np.int16(..)) / float(3): the exact value as a Python float (A1)
         return old_float(interp, x) if old_float is not None else interp.native(float, x)
